@@ -23,6 +23,10 @@ DESCR = {
     "OL": dict(sym="ol", pfx=["m"], typ=""),        # 'm'+'ol' clashes with the base unit 'mol'
     "T": dict(sym="tq", pfx=[], typ="T1"),           # brings a custom conversion type
     "XK": dict(sym="x", pfx=["k"], typ=""),         # same symbol as X, prefixed
+    "T2": dict(sym="tr", pfx=[], typ="T1"),         # a second unit of the same custom type
+    "TB": dict(sym="tb", pfx=[], typ="Temperature"),  # its conversion type is a built-in one
+    "BAD": dict(sym="bq", pfx=[], typ="T1", bad=True),  # malformed definition (no magnitude) with a custom type
+    "BADP": dict(sym="bp", pfx=[], typ="", bad=True),   # malformed definition
 }
 LINES = {
     "len": dict(kind="unit", sym="[len]"),
@@ -30,12 +34,16 @@ LINES = {
     "c": dict(kind="unit", sym="[c]"),              # `$unit c = ..` clashes with the constant [c]
     "use": dict(kind="use", sym=""),
     "bad": dict(kind="bad", sym=""),
+    "conv": dict(kind="conv", sym=""),
+    "convbad": dict(kind="convbad", sym=""),
+    "cond": dict(kind="cond", sym=""),
+    "nest": dict(kind="nest", sym=""),
 }
 BASE = {"m": ["k", "m"], "mol": [], "[c]": []}
 
 
 def tla_descr(d):
-    return f'[sym |-> "{d["sym"]}", pfx |-> {C.tla_str(set(d["pfx"]))}, typ |-> "{d["typ"]}"]'
+    return f'[sym |-> "{d["sym"]}", pfx |-> {C.tla_str(set(d["pfx"]))}, typ |-> "{d["typ"]}", bad |-> {C.tla_str(bool(d.get("bad")))}]'
 
 
 def tla_line(l):
@@ -95,8 +103,16 @@ CHECK_DEADLOCK FALSE
 
 # ----------------------------------------------------------------------------- replay
 
-class T1:            # a custom conversion type object (anything that is not a str)
-    pass
+def _make_T1():
+    from scinumtools.units.unit_types import UnitType
+
+    class T1(UnitType):        # a custom conversion type that never claims a conversion
+        def _istype(self):
+            return False
+    return T1
+
+
+T1 = _make_T1()
 
 
 _BASE_SNAPSHOT = None
@@ -127,16 +143,22 @@ def observe(base):
     changed = sorted(k for k in base["rows"] if k in keys and repr(UNIT_STANDARD[k]) != base["rows"][k])
     pfx_ok = {k: repr(UNIT_PREFIXES[k]) for k in UNIT_PREFIXES.keys()} == base["prefixes"]
     return {"custom": custom, "base_missing": missing, "base_changed": changed,
-            "ntypes": len(UNIT_TYPES), "prefixes_intact": pfx_ok, "dupkeys": len(keys) != len(set(keys))}
+            "ntypes": len(UNIT_TYPES), "types_are_base": list(UNIT_TYPES) == base["types"],
+            "ctypes": sorted("T1" if t is T1 else getattr(t, "__name__", str(t)) for t in UNIT_TYPES if t not in base["types"]), "prefixes_intact": pfx_ok, "dupkeys": len(keys) != len(set(keys))}
 
 
 def make_units(units, salt):
     d = {}
     for j, u in enumerate(units):
         e = {"magnitude": 2.0 + 0.25 * j + salt, "dimensions": [1, 0, 0, 0, 0, 0, 0, 0]}
+        if u.get("bad"):
+            del e["magnitude"]
         if u["pfx"]:
             e["prefixes"] = list(u["pfx"])
-        if u["typ"]:
+        if u["typ"] == "Temperature":
+            from scinumtools.units.unit_types import TemperatureUnitType
+            e["definition"] = TemperatureUnitType
+        elif u["typ"]:
             e["definition"] = T1
         d[u["sym"]] = e
     return d
@@ -148,7 +170,15 @@ def render_dip(text):
         if ln["kind"] == "unit":
             lines.append(f"$unit {ln['sym'][1:-1]} = {2 + j} m")
         elif ln["kind"] == "use":
-            lines.append(f"n{j} float = {j + 1} m")
+            lines.append(f"n{j} float = {j + 1} m" if j % 2 else f"n{j} int = {j + 1} m")
+        elif ln["kind"] == "conv":
+            lines += [f"c{j} float = 1 m", f"c{j} = 2 cm"]
+        elif ln["kind"] == "convbad":
+            lines += [f"c{j} float = 1 m", f"c{j} = 2 s"]          # raises inside NumberType.convert's scope
+        elif ln["kind"] == "cond":
+            lines += [f'@case ("1 m == 100 cm")', f"  k{j} int = 1", "@end"]
+        elif ln["kind"] == "nest":
+            lines.append(f'e{j} float = ("2 m + 1 m") m')
         else:
             lines.append(f"$unit q{j} = abc m")        # float('abc') raises inside the scope body
     return "\n".join(lines) + "\n"
@@ -191,14 +221,14 @@ def replay_hist(hist):
                 clause = "custom symbols in the global table differ from base + units of the open scopes"
             elif o["base_missing"] or o["base_changed"] or not o["prefixes_intact"] or o["dupkeys"]:
                 clause = "a base row / prefix row changed or disappeared"
-            elif o["ntypes"] != exp["ntypes"]:
+            elif o["ntypes"] != exp["ntypes"] or o["ctypes"] != sorted(exp["ctypes"]) or (not exp["ctypes"] and not o["types_are_base"]):
                 clause = "conversion-type list differs from base + types of the open scopes"
             elif res != op["res"]:
                 # accept/reject of the call itself: conformance of the machine (the property is about the tables)
                 return ("drift", {"step": n + 1, "op": op["op"], "spec": op["res"], "code": res})
             if clause:
                 return ("violation", {"step": n + 1, "op": op["op"], "arg": op["arg"], "observed": o,
-                                      "expected": {"custom": want_custom, "ntypes": exp["ntypes"]}, "clause": clause,
+                                      "expected": {"custom": want_custom, "ntypes": exp["ntypes"], "ctypes": sorted(exp["ctypes"])}, "clause": clause,
                                       "res": res})
             # usable inside the scope / unusable outside
             for h, units in handles:
@@ -349,15 +379,17 @@ def run(replay=None):
     wd = C.workdir(PID)
     t = C.tier()
     if t == "quick":
-        ul = unit_lists(2, ["X", "Y", "M", "OL", "T"]) + [("X", "Y", "M"), ("X", "T", "OL"), ("T", "Y", "X")]
-        tx = dip_texts(3, ["len", "c", "use", "bad"]) + [("len", "wid", "c", "use"), ("len", "c", "wid", "bad")]
-        ul3 = [("X",), ("Y",), ("X", "Y"), ("Y", "M"), ("X", "OL"), ("T",), ("T", "M"), ("XK", "Y")]
-        tx3 = [("len", "use"), ("len", "c", "use"), ("len", "bad"), ("c", "len", "use")]
+        ul = unit_lists(2, ["X", "Y", "M", "OL", "T", "T2", "TB", "BAD", "BADP"]) + [("X", "Y", "M"), ("X", "T", "OL"), ("T", "Y", "X"), ("X", "T", "BADP")]
+        tx = dip_texts(2, ["len", "c", "use", "bad", "conv", "convbad", "cond", "nest"]) + dip_texts(3, ["len", "c", "use", "bad"]) + \
+             [("len", "wid", "c", "use"), ("len", "c", "wid", "bad"), ("len", "c", "convbad"), ("len", "wid", "nest"), ("len", "cond", "convbad"), ("len", "conv", "c", "use")]
+        tx = sorted(set(tx))
+        ul3 = [("X",), ("Y",), ("X", "Y"), ("Y", "M"), ("X", "OL"), ("T",), ("T2",), ("TB",), ("T2", "M"), ("XK", "Y"), ("Y", "BAD")]
+        tx3 = [("len", "use"), ("len", "c", "use"), ("len", "bad"), ("c", "len", "use"), ("len", "convbad"), ("len", "nest")]
     else:
-        ul = unit_lists(3, ["X", "Y", "M", "OL", "T"])
-        tx = dip_texts(4, ["len", "wid", "c", "use", "bad"])
-        ul3 = unit_lists(2, ["X", "Y", "M", "OL", "T", "XK"])
-        tx3 = dip_texts(3, ["len", "c", "use", "bad"])
+        ul = unit_lists(3, ["X", "Y", "M", "OL", "T", "T2", "TB", "BAD"])
+        tx = sorted(set(dip_texts(3, ["len", "c", "use", "bad", "conv", "convbad", "cond", "nest"]) + dip_texts(4, ["len", "wid", "c", "use", "bad"])))
+        ul3 = unit_lists(2, ["X", "Y", "M", "OL", "T", "T2", "TB", "BAD", "XK"])
+        tx3 = dip_texts(3, ["len", "c", "use", "convbad", "nest"])
     # A: every unit list / text, behaviours of 2 calls; B: a core subset, behaviours of 3 calls (deeper nesting)
     open(os.path.join(wd, "UnitEnvMC.tla"), "w").write(mc_module(ul, tx, True, 2))
     r = C.run_tlc(wd, "UnitEnvMC", MC_CFG.format(emit="INVARIANT EmitInv"), coverage=False)
